@@ -296,7 +296,8 @@ def check_instance(inst, exp, stats=None):
             enum = Enumerator()
             try:
                 with patched_rademacher(enum):
-                    fx, blk, state1 = _call(h, entry, fun, x, state0, kwargs, inst["jit"])
+                    # (under jit the enumerated probes are constants of the program: not for the 2^16 cases)
+                    fx, blk, state1 = _call(h, entry, fun, x, state0, kwargs, inst["jit"] and nprobes[mode] <= 4096)
             except Exception as e:  # noqa: BLE001   (valid input: the handler must return)
                 bad.append((hname, entry, "raised", f"{type(e).__name__}: {str(e)[:300]}"))
                 continue
